@@ -34,7 +34,7 @@ EXTENDS Integers, Sequences, FiniteSets, TLC, Crc24q
 
 VARIABLES pc, cur, obs,
           got,        \* the answer of the underlying stream to the last request
-          validate,   \* 0 | 1
+          validate,   \* flags; bit 0 (VALCKSUM) = validate the checksum
           parsed,     \* BOOLEAN
           quit        \* 0 ignore | 1 log (handler or logger) | 2 raise
 
@@ -140,7 +140,7 @@ HandlerRaises ==
 
 TypeOK ==
   /\ pc \in {"idle", "b1", "b2", "ubx4", "ubxN", "nmea", "h3", "pay", "crc"}
-  /\ validate \in {0, 1} /\ parsed \in BOOLEAN /\ quit \in {0, 1, 2}
+  /\ validate \in Nat /\ parsed \in BOOLEAN /\ quit \in {0, 1, 2}      \* validate is a set of flags: bit 0 = checksum
 
 \* cur always has the shape its state promises
 CurShape ==
@@ -160,7 +160,7 @@ SliceOK ==
     LET raw == obs.raw IN
     /\ Len(raw) >= 6 /\ raw[1] = 211 /\ raw[2] < 4
     /\ Len(raw) = 6 + FrameSize(raw)
-    /\ (parsed /\ validate = 1 => Crc(raw) = 0)
+    /\ (parsed /\ validate % 2 = 1 => Crc(raw) = 0)
     /\ (parsed <=> obs.pk # "none")
 
 \* C04: only the library's own error classes are ever reported or raised
